@@ -17,7 +17,7 @@ from ..model import AnalysisError, Model
 from ..report import Report
 from ..setalg import SetAlg, atoms_of, compare, f_and, f_not, f_or, show_formula, show_row
 from ..symeval import Evaluator
-from ..terms import NONE, Term, const, mapterm, show, subterms, var
+from ..terms import NONE, Term, const, is_term, mapterm, show, subterms, var
 from .common import NXMG, VARIABLE, construct, graph_rewrite, graph_var, loc, return_paths, rewriter, short, typed, kwargs_of
 
 SL = "y0.algorithm.simplify_latent"
@@ -63,7 +63,7 @@ def run(model: Model, rep: Report, tier: str) -> None:
         "decide idempotence of the pipeline, equality with the latent projection, or invariance of separation/identifiability."
     )
     rep.trusted_base = ["networkx DiGraph add/remove, successors/predecessors, out_degree, topological_sort", "itertools.combinations/product"]
-    rep.floors = {"R16.1": 2, "R16.2": 2, "R16.3": 3, "R16.4": 9, "R16.5": 2}
+    rep.floors = {"R16.1": 2, "R16.2": 2, "R16.3": 3, "R16.4": 9, "R16.5": 2, "R16.6": 1, "R16.7": 10}
     from .. import nxden
     from ..refcmp import compare_with_reference, load_reference, private_callees, run_table
     from .common import nx_rewrite
@@ -157,6 +157,96 @@ def run(model: Model, rep: Report, tier: str) -> None:
         if n_rm == 0:
             problems.append("no removal found")
         (rep.refuted if problems else rep.proven)("R16.3", cons, "; ".join(problems), loc(f))
+    # ------------------------------------------------------------------ R16.6  every answer of evans_simplify goes through the whole pipeline
+    # (a must-pass-through rule over the return paths): LV-DAG of the caller's graph -> the caller's extra latents tagged -> Evans' rules ->
+    # the mixed graph read off the result.  A return that by-passes it on a condition that never looks at `latents` (a "nothing to simplify"
+    # short-cut on the graph alone) ignores the latents the caller named: the answer is then not the latent projection.
+    f = model.func(f"{SL}.evans_simplify")
+    cons6 = construct(f, "pipeline")
+    try:
+        ev6 = Evaluator(model, primitives={f"{SL}.simplify_latent_dag", f"{NXMG}.to_latent_variable_dag", f"{NXMG}.from_latent_variable_dag", f"{SL}._ensure_set",
+                                           "y0.graph._ensure_set"})
+        ev6.max_steps = 40000
+        rets6 = return_paths(ev6.run(f, {"graph": var("graph"), "latents": var("latents"), "tag": var("tag")}))
+    except Exception as e6:  # noqa: BLE001
+        rets6 = None
+        rep.unknown("R16.6", cons6, f"evans_simplify could not be evaluated: {type(e6).__name__}", loc(f))
+    if rets6 is not None:
+        probs6, undecided6 = [], []
+        for r6 in rets6:
+            v6 = r6.value
+            inner = None
+            if v6[0] == "call" and str(v6[1]).endswith("from_latent_variable_dag"):
+                g6 = kwargs_of(v6).get("graph", v6[2][0] if v6[2] else None)
+                if g6 is not None and g6[0] in ("attr", "index") and is_term(g6[1]) and g6[1][0] == "call" and str(g6[1][1]).endswith("simplify_latent_dag"):
+                    inner = kwargs_of(g6[1]).get("graph", g6[1][2][0] if g6[1][2] else None)
+            mentions_latents = any(sx == var("latents") for c6 in r6.conds for sx in subterms(c6))
+            if inner is None:
+                (undecided6 if mentions_latents else probs6).append(
+                    f"line {r6.line}: a return path hands back {short(show(v6), 80)} without exogenising, simplifying and projecting" +
+                    ("" if mentions_latents else " -- on a condition that never looks at `latents`, so latents the caller names are ignored there"))
+                continue
+            # (a private helper that is handed the LV-DAG together with the latents does the tagging: its stores are R16.5's business)
+            helper_tags = any(isinstance(n6, ast.Call) and not ast.unparse(n6.func).endswith(("simplify_latent_dag", "to_latent_variable_dag", "from_latent_variable_dag"))
+                              and {"latents"} <= {x6.id for a6 in list(n6.args) + [k6.value for k6 in n6.keywords] for x6 in ast.walk(a6) if isinstance(x6, ast.Name)}
+                              and len(n6.args) + len(n6.keywords) >= 2
+                              for n6 in ast.walk(f.node))
+            if helper_tags:
+                continue
+            latents_given = any(c6 == ("not", ("isnone", var("latents"))) or (c6[0] == "truth" and c6[1] == var("latents")) for c6 in r6.conds)
+            if latents_given and inner[0] == "call" and str(inner[1]).endswith("to_latent_variable_dag"):
+                probs6.append(f"line {r6.line}: with latents given, the LV-DAG is simplified as built -- the caller's latents are never tagged")
+        if probs6:
+            rep.refuted("R16.6", cons6, "; ".join(probs6[:3]), loc(f))
+        elif undecided6:
+            rep.unknown("R16.6", cons6, "; ".join(undecided6[:2]), loc(f))
+        else:
+            rep.proven("R16.6", cons6, loc=loc(f), sample={"return paths": len(rets6)}, nontrivial=len(rets6) > 0)
+    # ------------------------------------------------------------------ R16.7  the latent tag is threaded through
+    # Which node-data key marks a latent is an option (`tag`) of every LV-DAG routine.  A routine that takes it and calls another routine that takes
+    # it must hand it on: dropping the keyword makes the callee fall back to the default key, so with a non-default tag one half of the pipeline
+    # writes "hidden" and the other reads the caller's key -- the latents are silently treated as observed.  (option-threading rule; call sites are
+    # resolved by name for plain calls and by method name for attribute calls on the repository's graph class)
+    takers = {q: fn for q, fn in model.functions.items() if not fn.module.path.startswith("<") and "tag" in Model.param_names(fn)}
+    by_leaf: dict = {}
+    for q, fn in takers.items():
+        by_leaf.setdefault(fn.node.name, []).append(fn)
+    n_sites = 0
+    for q, fn in sorted(takers.items()):
+        if not (q.startswith(SL) or q.startswith("y0.algorithm.taheri_design") or q.startswith(NXMG)):
+            continue
+        dropped = []
+        own_nested = {id(x) for d_ in ast.walk(fn.node) if isinstance(d_, (ast.FunctionDef, ast.Lambda)) and d_ is not fn.node for x in ast.walk(d_)}
+        for c_ in ast.walk(fn.node):
+            if not isinstance(c_, ast.Call) or id(c_) in own_nested:
+                continue
+            callee = None
+            if isinstance(c_.func, ast.Name):
+                r_ = model.resolve_name(fn.module, c_.func.id)
+                callee = r_ if getattr(r_, "qname", None) in takers else None
+            elif isinstance(c_.func, ast.Attribute) and len(by_leaf.get(c_.func.attr, [])) == 1 and by_leaf[c_.func.attr][0].cls is not None:
+                callee = by_leaf[c_.func.attr][0]
+            if callee is None or callee is fn and False:
+                continue
+            n_sites += 1
+            names_ = Model.param_names(callee)
+            if callee.cls is not None and not callee.is_staticmethod and names_ and not isinstance(c_.func, ast.Name):
+                names_ = names_[1:]
+            passed = any(k_.arg == "tag" for k_ in c_.keywords) or any(k_.arg is None for k_ in c_.keywords)
+            if not passed and "tag" in names_:
+                a_ = callee.node.args
+                posn = [x.arg for x in a_.posonlyargs + a_.args]
+                if callee.cls is not None and not callee.is_staticmethod and not isinstance(c_.func, ast.Name):
+                    posn = posn[1:]
+                passed = "tag" in posn and len(c_.args) > posn.index("tag")
+            if not passed:
+                dropped.append(f"line {c_.lineno}: {ast.unparse(c_.func)}(...) is called without `tag`")
+        cons7 = construct(fn, "tag-threaded")
+        if dropped:
+            rep.refuted("R16.7", cons7, "; ".join(dropped[:3]) + " -- the callee falls back to the default key while this routine works with the caller's", loc(fn))
+        else:
+            rep.proven("R16.7", cons7, loc=loc(fn), nontrivial=False)
+    rep.stats["tag_call_sites"] = n_sites
     # ------------------------------------------------------------------ R16.5
     f = model.func(f"{SL}.evans_simplify")
     eff = Effects(model)
